@@ -738,8 +738,9 @@ def apalache_pool(run):
         return
     d = os.path.join(run.work, "apalache")
     os.makedirs(d, exist_ok=True)
-    for f in ("CliPool.tla", "CliPoolInd.tla"):
-        shutil.copy(os.path.join(run.root, "spec", f), d)
+    # (CliPoolInd.tla lives in spec/apalache: it extends Apalache's own module, which SANY / TLC do not know)
+    shutil.copy(os.path.join(run.root, "spec", "CliPool.tla"), d)
+    shutil.copy(os.path.join(run.root, "spec", "apalache", "CliPoolInd.tla"), d)
     def ap(cinit, init, inv, length, cwd=d, timeout=900):
         t = time.time()
         try:
